@@ -83,6 +83,16 @@ def _hash_site(ctx, pr, u, gdefs):
     arg = u.args[0] if u.args else None
     copied = isinstance(arg, ast.Call) and isinstance(arg.func, ast.Attribute) and arg.func.attr == 'copy'
     sub = arg.func.value if copied else arg
+    # a local alias of the region: real = buffer[...]
+    if isinstance(sub, ast.Name):
+        ds = [a for a in ast.walk(f.node) if isinstance(a, ast.Assign) and len(a.targets) == 1 and U(a.targets[0]) == sub.id]
+        if len(ds) == 1 and isinstance(ds[0].value, (ast.Subscript, ast.Call)):
+            v = ds[0].value
+            if isinstance(v, ast.Call) and isinstance(v.func, ast.Attribute) and v.func.attr == 'copy':
+                copied = True
+                v = v.func.value
+            if isinstance(v, ast.Subscript):
+                sub = v
     if not isinstance(sub, ast.Subscript):
         ctx.fail('C20.1', f, enclosing_stmt(u), 'the hash is updated with `%s`, not with the real region of the group buffer: '
                  'the replicated planes / traces that pad a partial last group (and any padded cells) are hashed too' % U(arg)[:60],
